@@ -89,6 +89,10 @@ def summarize(f, path, with_self=True):
         if self_ptr is not None:
             final = show(norm(it.resolve(s, s.heap[self_ptr[1]])))
         outs.append((tuple(sorted(set(norm_cond(c) for c in s.conds))), LABEL.sub("'*'", show(norm(it.resolve(s, rv)))), final))
+    # ValueSerializer is a unit struct: inside its own methods `self` and a fresh `ValueSerializer` are the same value
+    if (b.get("impl") or {}).get("self_s", "").endswith("ValueSerializer"):
+        unit = lambda x: re.sub(r"(?<=, )ValueSerializer(?=[,)])|(?<=\()ValueSerializer(?=[,)])", "self", x) if isinstance(x, str) else x
+        outs = [(tuple((unit(a_), b__) for a_, b__ in c_), unit(r_), fin_) for c_, r_, fin_ in outs]
     return sorted(outs, key=repr)
 
 
